@@ -91,7 +91,7 @@ def run(prop, tier, seed, verdict):
     os.makedirs(os.path.join(workdir, "tmp"), exist_ok=True)
     os.environ["VERIF_TMP"] = os.path.join(workdir, "tmp")
     rng = random.Random(seed * 389 + 19)
-    n = 64 if tier == "quick" else 1600
+    n = 160 if tier == "quick" else 1600
     fixed = ["mods", "cancel-idle", "cancel-pending", "burst"]
     scripts = [gen_script(rng, i, fixed[i] if i < len(fixed) else None) for i in range(n)]
     shards = 16
